@@ -258,11 +258,19 @@ def run(tier="quick", seed=1, replay=None):
               "INVARIANT RedoConverges\nINVARIANT RestartCleans\nCHECK_DEADLOCK FALSE\n")
         if not replay:
             for np in (False, True):
-                cfg = vf.write_cfg(wd, f"MC_Crash_{int(np)}.cfg", {"Names": '{"a", "b"}', "NoPrune": vf.tla_bool(np), "MaxPrior": 2 if quick else 3}, MC)
+                cfg = vf.write_cfg(wd, f"MC_Crash_{int(np)}.cfg", {"Names": '{"a", "b"}', "NoPrune": vf.tla_bool(np), "MaxPrior": 2 if quick else 3, "Variant": '"asis"'}, MC)
                 r = vf.tlc("Crash", cfg, wd, timeout=3000)
                 vf.tlc_must_pass(r, f"Crash.tla invariants (NoPrune={np})")
                 cov["states"] += r["distinct"]
                 cov["transitions"] += r["generated"]
+            # non-vacuity of the design-level invariants: each ordering mistake the property is about violates one of them
+            cov["design_variants_rejected"] = {}
+            for var, inv in (() if quick else (("manifest-first", "IntactAlways"), ("delete-layers-first", "IntactAlways"), ("hardlink-copy", "BystandersUnchanged"))):
+                cfg = vf.write_cfg(wd, f"MC_Crash_{var}.cfg", {"Names": '{"a", "b"}', "NoPrune": "FALSE", "MaxPrior": 2, "Variant": f'"{var}"'}, MC)
+                r = vf.tlc("Crash", cfg, wd, timeout=3000)
+                if f"Invariant {inv} is violated" not in r["out"]:
+                    raise vf.Inconclusive(f"Crash.tla variant {var} is no longer rejected by {inv}:\n" + r["out"][-1200:])
+                cov["design_variants_rejected"][var] = inv
         if replay:
             scs = [json.loads(l) for l in open(replay) if l.strip()]
         else:
@@ -282,7 +290,7 @@ def run(tier="quick", seed=1, replay=None):
         if os.environ.get("VF_KEEP_TRACE"):
             shutil.copy(trace, os.environ["VF_KEEP_TRACE"])
         with open(os.path.join(wd, "Trace_Crash.cfg"), "w") as f:
-            f.write(vf.TRACE_CFG)
+            f.write('CONSTANTS Variant = "asis"\n' + vf.TRACE_CFG)
         vf.copy_specs(wd)
         v = vf.validate_trace("Trace_Crash", "Trace_Crash.cfg", trace, wd, timeout=3000)
         by_t = {s["id"]: s for s in scs}
